@@ -309,39 +309,34 @@ Example C03_resize_run_nonvacuous :
   = USent 1 [PH (0, 0, 24, 12, enc_NewFBSize)] false false.
 Proof. exact ex_run. Qed.
 
-(* ---- F22 and its proposed repair (notes/fix_C03_8.diff; NOT in the library yet -- Wire/ClipModel.v mirrors the flow
-   with it, UpdateModel.v the flow without it, props/C03.py reads from the source which one the library has).
-   With the repair every pixel rectangle and every copy destination of an update lies inside the region the client
-   REQUESTED (any box W' x H' containing the requests) -- no hypothesis on modifiedRegion / copyRegion / the screen
-   size, hence across rfbNewFramebuffer and also for clients that cannot be told the new size.  Without the repair
-   this fails (first conjunct of the example: the cursor rectangle 83,6,1,2 for a client that asked for 80x70). *)
-Theorem C03_rects_inside_requested_fix8 : forall c1 s sn W' H',
+(* ---- C03_rects_inside_requested (F22, repaired by 0013b67; [plan_regions] / [model_update] are the flow WITH the
+   repair, the library's; [plan_regions_old] the flow before it).  Every pixel rectangle and every copy destination
+   of an update lies inside the region the client REQUESTED (any box W' x H' containing the requests) -- no
+   hypothesis on modifiedRegion / copyRegion / the screen size, hence across rfbNewFramebuffer and also for clients
+   that cannot be told the new size (no NewFBSize / ExtDesktopSize). *)
+Theorem C03_rects_inside_requested : forall c1 s sn W' H',
   1 <= sn_fbw sn -> 1 <= sn_fbh sn ->
   WF (sn_mod sn) -> WF (sn_req sn) -> WF (sn_copy sn) ->
   within W' H' (sn_req sn) ->
-  Forall (rect_in_screen W' H') (pl_region (plan_regions_clip c1 s sn)) /\
+  Forall (rect_in_screen W' H') (pl_region (plan_regions c1 s sn)) /\
   Forall (fun rc => let '(x1, y1, x2, y2) := rc in 0 <= x1 /\ x1 < x2 /\ x2 <= W' /\ 0 <= y1 /\ y1 < y2 /\ y2 <= H')
-         (pl_copy (plan_regions_clip c1 s sn)).
-Proof. exact plan_clip_requested. Qed.
+         (pl_copy (plan_regions c1 s sn)).
+Proof. exact plan_inside_requested. Qed.
 
-Example C03_rects_inside_requested_fix8_nonvacuous :
-  pl_region (plan_regions caps_init (mkSends false false false false false false) (f22_snap 83)) = [(10, 6, 2, 2); (83, 6, 1, 2)] /\
-  pl_region (plan_regions_clip caps_init (mkSends false false false false false false) (f22_snap 83)) = [(10, 6, 2, 2)] /\
-  pl_region (plan_regions_clip caps_init (mkSends false false false false false false) (f22_snap 40)) = [(10, 6, 2, 2); (40, 6, 2, 2)].
-Proof. exact f22_witness. Qed.
+Example C03_rects_inside_requested_nonvacuous :
+  within 80 70 (sn_req (f22_snap 83)) /\
+  pl_region (plan_regions caps_init (mkSends false false false false false false) (f22_snap 83)) = [(10, 6, 2, 2)] /\
+  pl_region (plan_regions caps_init (mkSends false false false false false false) (f22_snap 40)) = [(10, 6, 2, 2); (40, 6, 2, 2)].
+Proof. exact f22_after_fix. Qed.
 
-(* the count theorem and totality carry over to the repaired flow *)
-Theorem C03_update_count_model_fix8 : forall g c sn c' n hs ovf,
-  g_wrap_coalesce g = true -> g_wrap_copy g = true -> snap_ok sn ->
-  (let c0 := bpp24_prelude g c sn in let sc := decide_sends g c0 (sn_ledval sn) in
-   bbox_fits g (snd sc) sn (plan_regions_clip (snd sc) (fst sc) sn)) ->
-  model_update_clip g c sn = (c', USent n hs false ovf) ->
-  phdr_count hs = Some n /\ n < 65535.
-Proof. exact model_update_count_clip. Qed.
-
-Theorem C03_model_update_total_fix8 : forall g c sn,
-  g_wrap_coalesce g = true -> snap_ok sn -> forall why, snd (model_update_clip g c sn) <> UTrap why.
-Proof. exact model_update_total_clip. Qed.
+(* before 0013b67 the statement failed: the client asked for 80x70 (the size it knows), the screen had grown to
+   84x70, the cursor moved to x = 83 -- the cursor rectangle 83,6,1,2 was planned (F22; the witness
+   corpus/C03/F22_resize_without_newfbsize.script is replayed on the implementation on every run) *)
+Theorem C03_rects_inside_requested_before_fix_refuted :
+  within 80 70 (sn_req (f22_snap 83)) /\
+  ~ Forall (rect_in_screen 80 70)
+           (pl_region (plan_regions_old caps_init (mkSends false false false false false false) (f22_snap 83))).
+Proof. exact f22_before_fix. Qed.
 
 (* ---- refutations: the faithful model violates the full statement; each witness is replayed on
    the real library by props/C03.py (findings F4, F4b, F5, F6) ---- *)
